@@ -585,7 +585,7 @@ pub fn euclidean_distance_int8(a: &[i8], b: &[i8]) -> f64 {
 /// # Returns
 /// - Cosine distance in [0, 2] where 0=same direction, 1=orthogonal, 2=opposite
 /// - `f64::INFINITY` if dimensions don't match
-/// - 1.0 for zero vectors (maximum distance)
+/// - 1.0 if exactly one vector is zero (maximum distance), 0.0 if both are
 #[inline]
 pub fn cosine_distance_int8(a: &[i8], b: &[i8]) -> f64 {
     if a.len() != b.len() {
@@ -604,6 +604,9 @@ pub fn cosine_distance_int8(a: &[i8], b: &[i8]) -> f64 {
         norm_b += y * y;
     }
 
+    if norm_a == 0 && norm_b == 0 {
+        return 0.0; // Two zero vectors are identical (as in `cosine_distance`)
+    }
     if norm_a == 0 || norm_b == 0 {
         return 1.0; // Maximum distance for zero vectors
     }
